@@ -269,6 +269,8 @@ const FORMAT_NAMES: [&str; 13] = ["wdt", "wdl", "dbc", "blp", "skin", "anim", "m
 /// seeds each format is expected to yield (a seed is dropped when the crate's writer refuses it or its
 /// own parser no longer accepts it); fewer is reported in the evidence, none is a machinery failure
 const EXPECTED_SEEDS: [usize; 13] = [7, 6, 10, 12, 8, 8, 14, 9, 8, 16, 4, 5, 17];
+/// the same for thorough (primary + additional seeds)
+const EXPECTED_SEEDS_T: [usize; 13] = [7, 6, 10, 12, 8, 8, 14, 9, 8, 16, 4, 5, 17];
 
 // ------------------------------------------------------------------ panic site -> function cache
 
@@ -358,6 +360,8 @@ struct FormatSpace {
 
 /// thorough: header-level sites per seed whose pairs are all enumerated (strided if a seed has more)
 const PAIR_SITES_T: usize = 56;
+/// the same for the additional (tier2) seeds of thorough
+const PAIR_SITES_T2: usize = 24;
 
 /// site / chunk-op budgets per seed
 struct Budget {
@@ -378,7 +382,7 @@ impl FormatSpace {
         seeds.sort_by_key(|s| s.bytes.len());
         let b = match tier {
             Tier::Quick => Budget { sites: 120, vals: (0..VALS.len()).collect(), chunk_ops: 24, pair_sites: 0, pair_seeds: 0, near_dist: 0, near_sites: 0 },
-            Tier::Thorough => Budget { sites: usize::MAX / 4, vals: (0..VALS_T.len()).collect(), chunk_ops: 600, pair_sites: PAIR_SITES_T, pair_seeds: usize::MAX, near_dist: 3, near_sites: 1200 },
+            Tier::Thorough => Budget { sites: usize::MAX / 4, vals: (0..VALS_T.len()).collect(), chunk_ops: 600, pair_sites: PAIR_SITES_T, pair_seeds: usize::MAX, near_dist: 3, near_sites: 400 },
         };
         // the seeds with the most header-level sites carry the 2-deviation class
         let mut by_hdr: Vec<usize> = (0..seeds.len()).collect();
@@ -395,7 +399,7 @@ impl FormatSpace {
             field_sites.extend(stride(&rest, b.sites.saturating_sub(hdr.len().min(b.sites / 2))));
             field_sites.sort();
             field_sites.dedup();
-            let pair_sites = if pair_seeds.contains(&i) { stride(&hdr, b.pair_sites) } else { vec![] };
+            let pair_sites = if pair_seeds.contains(&i) { stride(&hdr, if s.tier2 { PAIR_SITES_T2.min(b.pair_sites) } else { b.pair_sites }) } else { vec![] };
             let mut near_pairs = vec![];
             let all_hdr: Vec<usize> = all.iter().copied().filter(|&k| s.sites[k].header).take(b.near_sites).collect();
             for (x, &a) in all_hdr.iter().enumerate() {
@@ -737,6 +741,32 @@ fn main() {
         repro();
         return;
     }
+    if std::env::args().any(|a| a == "--check-seeds") {
+        // run the unmodified seed of every (format, seed) and say what each entry point did (debug aid)
+        let tier = if std::env::args().any(|a| a == "thorough") { Tier::Thorough } else { Tier::Quick };
+        let _ = THOROUGH.set(tier == Tier::Thorough);
+        let only = arg_after("--only-format");
+        let mut bad = 0;
+        for f in all_formats() {
+            if only.as_ref().map(|o| !o.split(',').any(|x| x == f.name())).unwrap_or(false) {
+                continue;
+            }
+            let sp = FormatSpace::new(f, tier);
+            for k in 0..sp.seeds.len() {
+                let r = sp.run(sp.cum[k]);
+                let first_ok = r.outcome.split('|').nth(1).and_then(|o| o.split(';').next()).map(|e| e.ends_with(":ok") || e.ends_with(":ok+err")).unwrap_or(false);
+                println!("{:<10} {:<55} {:>7} B tier2={} first_ep_ok={} viols={}", sp.fmt.name(), sp.seeds[k].name, sp.seeds[k].bytes.len(), sp.seeds[k].tier2, first_ok, r.viols.len());
+                if std::env::args().any(|a| a == "-v") || !r.viols.is_empty() {
+                    println!("      {}", r.outcome);
+                }
+                for v in &r.viols {
+                    bad += 1;
+                    println!("      VIOLATION {} :: {}", v.symptom, v.detail);
+                }
+            }
+        }
+        std::process::exit(if bad > 0 { 1 } else { 0 });
+    }
     if std::env::args().any(|a| a == "--seeds") {
         // list the seeds of every format (debug aid)
         let _ = THOROUGH.set(std::env::args().any(|a| a == "thorough"));
@@ -753,7 +783,7 @@ fn main() {
     }
     let Mode::Supervisor(mut c) = start("C05", "exploration", build) else { return };
     let only: Option<Vec<String>> = arg_after("--only-format").or_else(|| std::env::var("C05_FORMATS").ok()).map(|s| s.split(',').map(|x| x.trim().to_string()).collect());
-    c.rule = "One space per format (wdt, wdl, dbc, blp, skin, anim, m2, wmo_root, wmo_group, adt, ptch, codec, mpq; `--only-format a,b` or C05_FORMATS runs a subset). \
+    let rule_quick = "One space per format (wdt, wdl, dbc, blp, skin, anim, m2, wmo_root, wmo_group, adt, ptch, codec, mpq; `--only-format a,b` or C05_FORMATS runs a subset). \
         Case = (seed file written by the crate's own writer/builder, deviation). Deviations: none (the seed); every prefix length (thorough: all < 4 KiB, then every 97th, last 64; \
         quick: all < 160, every 11th < 4 KiB, every 997th beyond, last 16); every located 32-bit field position (header dwords, magic/size/first payload dwords of every chunk incl. sub-chunks, \
         table entries, for MPQ also the plaintext dwords inside the encrypted hash/block/HET/BET tables: decrypt, patch, re-encrypt) x 10 values {0,1,2^31-1,2^31,2^32-1,field-1,field+1,file_len,file_len-1,file_len+1} \
@@ -763,8 +793,29 @@ fn main() {
         no single allocation request and no peak live heap above 256 MiB + 4096 x input_len (requests above the limit are refused by the counting allocator). \
         A dying child is re-run without the call that killed it (up to 2 deaths per case in quick, 4 in thorough) so that the other entry points of the case are still observed. \
         A case is non-trivial when a parser consumed more than 8 bytes of its input (counting reader; for the path/slice-only APIs of mpq, blp, ptch, codec: input longer than 8 bytes); cases whose deviation leaves the seed unchanged are skipped and counted. Distinct by (format, seed, deviation). \
-        Symptom = entry point + failure class + site (panic: source file, innermost /repo function, message with digits collapsed; abort: innermost /repo function of the dying call chain)."
-        .into();
+        Symptom = entry point + failure class + site (panic: source file, innermost /repo function, message with digits collapsed; abort: innermost /repo function of the dying call chain).";
+    let rule_thorough = "One space per format (wdt, wdl, dbc, blp, skin, anim, m2, wmo_root, wmo_group, adt, ptch, codec, mpq; `--only-format a,b` or C05_FORMATS runs a subset). \
+        Case = (seed file, deviation). Seeds: the primary seeds of the quick tier (written by the crate's own writer/builder) plus the additional (tier2) seeds of this tier: every container / header version the writers emit \
+        (WDT Classic..Dragonflight, WDL Vanilla..Legion, M2 MD20 256..310 and MD21 around Legion/Shadowlands/TWW payloads, skin/anim old+new layouts with up to 9 submeshes / sections / bones, WMO MVER 17..23 roots and groups, \
+        every BLP version x encoding x alpha depth incl. 1x1 and non-square images, larger DBC tables (100..257 records), PTCH payloads of 4 KiB, codec streams of 6 KiB and the codecs whose primary seed is missing, \
+        MPQ V1-V4 x further codec/crypto/CRC/attribute/table-compression configurations, 40-file archives, archives nested behind a user-data header (V2/V3/V4) and embedded at 0x200/0x600 behind foreign bytes). \
+        Deviations, each class enumerated completely: none (the seed); EVERY prefix length 0..len-1 (every truncation point); trailing data (8 kinds: 1/4/8/4096 bytes of 00 or FF, a copy of the file head); \
+        EVERY located 32-bit field position (all header dwords, magic/size/first payload dwords of every chunk incl. sub-chunks, all dwords of the non-chunked files, table entries, for MPQ also the plaintext dwords inside the \
+        encrypted hash/block/HET/BET tables: decrypt, patch, re-encrypt; no striding) x 20 values {0,1,2,255,256,2^15,2^16-1,2^16,2^16-1<<16,2^30,2^31-1,2^31,2^32-1,field-1,field+1,file_len-1,file_len,file_len+1,rest,rest+1} (rest = bytes that follow the field); \
+        chunk edits for every chunk (strided only above 600 chunks per seed): delete, duplicate, swap-with-next, 8 consistent payload resizes {-1,-2,-3,-4,+1,+4,empty,half} (own size field and enclosing chunks follow), \
+        and per sibling group (top level / children of one container, <= 24 members, strided if larger) every pair of siblings exchanged and every pair deleted; \
+        2-field deviations: ALL pairs of <= 56 header-level sites of a primary seed (<= 24 of a tier2 seed; strided if a seed has more) x 6x6 values {0,2^32-1,2^31-1,2^31,field+1,file_len}, \
+        plus every pair of header-level sites at distance <= 3 in file order (the count/offset/size couples of one structure) among the first 400 header-level sites that is not in the all-pairs set x 8x8 values {0,1,2^31-1,2^31,2^32-1,field+1,file_len,2^16}. \
+        Every case runs all entry points of the format in a forked child under the monitors: no panic, no abort/signal, no stack overflow, return within 50 s (engine watchdog 60 s), \
+        no single allocation request and no peak live heap above 256 MiB + 4096 x input_len (requests above the limit are refused by the counting allocator). \
+        Entry points of this tier beyond those of quick: MPQ header::find_header, MpqHeader::read, HET/BET/hash/hi-block table lookups on the opened archive, PatchChain::extract_files/get_chain_info, MutableArchive::find_file/load_attributes/verify_signature, \
+        and (1-deviation classes) ParallelArchive::open/extract_files_parallel/read_file_with_new_handle, rebuild_archive[list_only], compare_archives; PatchHeader::parse; compression::rle::decompress and two more expected sizes; \
+        M2Model::parse_chunked, resolve_bone_animations, AnimationManagerBuilder::from_model, embedded skins 1..3; SkinHeader/OldSkinHeader parsers; AnimFormatDetector/AnimHeader/AnimParser; CombinedAlphaMap::new on the parsed terrain chunks, AdtSet::load_from_path + merge; \
+        blp_to_image of every level, BlpJpeg::full_jpeg, load_blp (with BLP0 mip files); DbcVersion::detect, DbcHeader/Wdb2Header/Wdb5Header::parse, CachedStringBlock. \
+        A dying child is re-run without the call that killed it (up to 4 deaths per case) so that the other entry points of the case are still observed. \
+        A case is non-trivial when a parser consumed more than 8 bytes of its input (counting reader; for the path/slice-only APIs of mpq, blp, ptch, codec: input longer than 8 bytes); cases whose deviation leaves the seed unchanged are skipped and counted. Distinct by (format, seed, deviation). \
+        Symptom = entry point + failure class + site (panic: source file, innermost /repo function, message with digits collapsed; abort: innermost /repo function of the dying call chain).";
+    c.rule = c.tier.pick(rule_quick, rule_thorough).into();
     c.assume("seed files are valid inputs: each is accepted by the first entry point of its format (checked: case 0 of every seed is the unmodified seed)");
     c.assume("a request above the limit is refused by the allocator (null), so the observed failure mode of such a request is an abort of the forked child; it is reported as an allocation-rule violation of the entry point that was running");
     c.assume("time limit 50 s per case inside the child (alarm), all entry points of the case together");
@@ -777,7 +828,7 @@ fn main() {
             }
         }
         let sp = FormatSpace::new(all_formats().into_iter().find(|f| f.name() == name).unwrap(), c.tier);
-        let want = EXPECTED_SEEDS[FORMAT_NAMES.iter().position(|n| *n == name).unwrap()];
+        let want = c.tier.pick(EXPECTED_SEEDS, EXPECTED_SEEDS_T)[FORMAT_NAMES.iter().position(|n| *n == name).unwrap()];
         if sp.seeds.is_empty() {
             c.machinery_errors.push(format!("format {name}: no valid seed could be produced"));
             continue;
@@ -791,6 +842,22 @@ fn main() {
         c.run_space(name, "");
     }
     c.extra_cov.insert("axes".into(), Value::Object(axes));
+    if c.tier == Tier::Thorough {
+        c.extra_cov.insert(
+            "bounds".into(),
+            json!({
+                "prefix_lengths": "every length 0..len-1 of every seed",
+                "values_per_field": VALS_T.len(),
+                "field_sites": "every located site of every seed (no stride)",
+                "chunk_edit_kinds": {"delete": 1, "duplicate": 1, "swap_with_next": 1, "payload_resize": RESIZES.len(), "sibling_pair_swap": "all pairs of <= 24 siblings per group", "sibling_pair_delete": "all pairs of <= 24 siblings per group"},
+                "chunks_per_seed_max": 600,
+                "all_pairs_header_sites": {"primary_seed": PAIR_SITES_T, "tier2_seed": PAIR_SITES_T2, "value_grid": [VALS2.len(), VALS2.len()]},
+                "neighbour_pairs": {"distance": 3, "among_first_header_sites": 400, "value_grid": [VALS2N.len(), VALS2N.len()]},
+                "trailing_data_kinds": APPENDS.len(),
+                "tier2_seeds": "additional thorough-only seeds: further writer versions / configurations / element counts / nested containers",
+            }),
+        );
+    }
     if !shortfall.is_empty() {
         c.extra_cov.insert("seed_shortfall".into(), json!(shortfall));
     }
